@@ -1,64 +1,530 @@
+// check <property-id> [--tier quick|thorough] [--only harness] [--replay file]
+//
+// Regenerates the SSA of /repo's current working tree (with the in-package
+// harness files of /verif/harness overlaid), symbolically executes every
+// harness registered for the property in /verif/checks/<id>.json, replays any
+// counterexample natively against the real build, and writes
+// /verif/evidence/<id>.json.
+//
+// exit 0: every obligation discharged (unsat) on every explored path
+// exit 1: VIOLATION property=<id> replay=<path>  (reproduced natively, not a listed known finding)
+// exit 2: INCONCLUSIVE (unsupported construct, solver unknown, budget, vacuous harness, replay mismatch)
 package main
 
 import (
+	"encoding/json"
 	"flag"
 	"fmt"
 	"os"
+	"path/filepath"
+	"runtime"
+	"sort"
+	"strconv"
 	"strings"
+	"time"
 
 	"verif/engine/sx"
 )
 
+type HarnessSpec struct {
+	Pkg          string   `json:"pkg"`
+	Fn           string   `json:"fn"`
+	Tier         string   `json:"tier"` // quick | thorough | both
+	Solver       string   `json:"solver"`
+	MapOrder     int      `json:"maporder"`
+	MaxPaths     int      `json:"max_paths"`
+	MaxSteps     int      `json:"max_steps"`
+	MaxEnum      int      `json:"max_enum"`
+	TimeoutMs    int      `json:"timeout_ms"`
+	Workers      int      `json:"workers"`
+	RequireReach []string `json:"require_reach"`
+	Bounds       string   `json:"bounds"`
+	What         string   `json:"what"`
+	AllowPanics  bool     `json:"allow_panics"`
+}
+
+type CheckSpec struct {
+	PropertyID  string        `json:"property_id"`
+	Level       string        `json:"level"`
+	Explanation string        `json:"explanation"`
+	Assumptions []string      `json:"assumptions"`
+	Trusted     []string      `json:"trusted_base"`
+	Stubs       []string      `json:"stubs"`
+	Outside     []string      `json:"outside_the_claim"`
+	Harnesses   []HarnessSpec `json:"harnesses"`
+}
+
+type KnownFinding struct {
+	Property string `json:"property"`
+	Status   string `json:"status"` // known | fixed
+	Harness  string `json:"harness"`
+	Kind     string `json:"kind"`
+	Msg      string `json:"msg"`
+	Site     string `json:"site_contains,omitempty"`
+	What     string `json:"what"`
+	Commit   string `json:"commit,omitempty"`
+}
+
+const verifDir = "/verif"
+
 func main() {
+	tier := flag.String("tier", "", "quick | thorough (default $VERIF_TIER or quick)")
 	repo := flag.String("repo", "/repo", "repository root")
-	pkg := flag.String("pkg", "", "package dir relative to repo")
-	fn := flag.String("fn", "", "harness function")
-	workers := flag.Int("workers", 8, "workers")
-	solver := flag.String("solver", "z3", "solver")
-	logsmt := flag.String("logsmt", "", "smt log prefix")
-	maporder := flag.Int("maporder", 1, "map order max")
-	flag.Parse()
-	overlay := map[string][]byte{}
-	hdir := "/verif/harness/" + *pkg
-	if err := sx.OverlayFromDir(overlay, hdir, *repo, *pkg, nil); err != nil {
-		fmt.Println(err)
+	only := flag.String("only", "", "run only this harness")
+	replay := flag.String("replay", "", "replay a recorded counterexample file natively")
+	workers := flag.Int("workers", 0, "override worker count")
+	logsmt := flag.String("logsmt", "", "SMT log prefix (debug)")
+	noReplay := flag.Bool("no-native", false, "skip native replay (debug)")
+	verbose := flag.Bool("v", false, "verbose")
+	concrete := flag.String("concrete", "", "run the recorded vector file concretely inside the engine (debug / translator validation)")
+	flag.Usage = func() {
+		fmt.Fprintln(os.Stderr, "usage: check [flags] <property-id>")
+		flag.PrintDefaults()
+	}
+	// allow flags after the id
+	args := os.Args[1:]
+	var id string
+	var rest []string
+	for k := 0; k < len(args); k++ {
+		if !strings.HasPrefix(args[k], "-") && id == "" {
+			id = args[k]
+			continue
+		}
+		rest = append(rest, args[k])
+	}
+	flag.CommandLine.Parse(rest)
+	if id == "" {
+		flag.Usage()
 		os.Exit(2)
 	}
-	tmpl, _ := os.ReadFile("/verif/harness/rt/rt_sym.go.tmpl")
-	parts := strings.Split(*pkg, "/")
-	pkgName := parts[len(parts)-1]
-	overlay[*repo+"/"+*pkg+"/zz_verif_rt.go"] = []byte(strings.Replace(string(tmpl), "package PKG", "package "+pkgName, 1))
-	p, err := sx.Load(*repo, []string{"./" + *pkg}, overlay, "")
+	if *tier == "" {
+		*tier = os.Getenv("VERIF_TIER")
+	}
+	if *tier == "" {
+		*tier = "quick"
+	}
+	seed, _ := strconv.Atoi(os.Getenv("VERIF_SEED"))
+
+	if *replay != "" {
+		os.Exit(doReplay(*repo, id, *replay))
+	}
+
+	t0 := time.Now()
+	specPath := filepath.Join(verifDir, "checks", id+".json")
+	b, err := os.ReadFile(specPath)
+	if err != nil {
+		fatal(id, "no check spec: "+err.Error())
+	}
+	var spec CheckSpec
+	if err := json.Unmarshal(b, &spec); err != nil {
+		fatal(id, "bad check spec: "+err.Error())
+	}
+	var known []KnownFinding
+	if kb, err := os.ReadFile(filepath.Join(verifDir, "known_findings.json")); err == nil {
+		if err := json.Unmarshal(kb, &known); err != nil {
+			fatal(id, "bad known_findings.json: "+err.Error())
+		}
+	}
+
+	// select harnesses
+	var hs []HarnessSpec
+	pkgs := map[string]bool{}
+	for _, h := range spec.Harnesses {
+		if *only != "" && h.Fn != *only {
+			continue
+		}
+		if *only == "" && !(h.Tier == "both" || h.Tier == *tier || h.Tier == "") {
+			continue
+		}
+		hs = append(hs, h)
+		pkgs[h.Pkg] = true
+	}
+	if len(hs) == 0 {
+		fatal(id, "no harness selected for tier "+*tier)
+	}
+
+	// overlay: harness files + symbolic rt per package
+	overlay := map[string][]byte{}
+	tmpl, err := os.ReadFile(filepath.Join(verifDir, "harness/rt/rt_sym.go.tmpl"))
+	if err != nil {
+		fatal(id, err.Error())
+	}
+	var patterns []string
+	for p := range pkgs {
+		if err := sx.OverlayFromDir(overlay, filepath.Join(verifDir, "harness", p), *repo, p, nil); err != nil {
+			fatal(id, err.Error())
+		}
+		parts := strings.Split(p, "/")
+		overlay[filepath.Join(*repo, p, "zz_verif_rt.go")] = []byte(strings.Replace(string(tmpl), "package PKG", "package "+parts[len(parts)-1], 1))
+		patterns = append(patterns, "./"+p)
+	}
+	sort.Strings(patterns)
+	tLoad := time.Now()
+	prog, err := sx.Load(*repo, patterns, overlay, "")
+	if err != nil {
+		fatal(id, "cannot load /repo with harness overlay (does the tree compile?): "+err.Error())
+	}
+	loadS := time.Since(tLoad).Seconds()
+
+	var native *sx.NativeRunner
+	if !*noReplay {
+		native, err = sx.NewNativeRunner(*repo, filepath.Join(verifDir, "harness"))
+		if err != nil {
+			fatal(id, err.Error())
+		}
+		defer native.Close()
+	}
+
+	if *concrete != "" {
+		cb, err := os.ReadFile(*concrete)
+		if err != nil {
+			fatal(id, err.Error())
+		}
+		var rec struct {
+			Pkg, Harness string
+			Vector       []sx.ReplayVal
+		}
+		json.Unmarshal(cb, &rec)
+		pkg := prog.Pkgs["github.com/Vedant9500/WTF/"+rec.Pkg]
+		fn := pkg.Func(rec.Harness)
+		cfg := sx.DefaultConfig()
+		res := prog.RunConcrete(fn, cfg, rec.Vector)
+		fmt.Printf("concrete run: status=%s msg=%s reached=%v\n", res.Status, res.Msg, res.Reached)
+		for _, f := range res.Findings {
+			fmt.Printf("  finding %s: %s\n", f.Kind, f.Msg)
+		}
+		for _, t := range res.Trace {
+			fmt.Println("  TRACE:", t)
+		}
+		for _, u := range res.Unknowns {
+			fmt.Println("  unknown:", u)
+		}
+		os.Exit(0)
+	}
+	var results []hres2
+	var inconclusive []string
+	violations := 0
+	var outLines []string
+	replayDir := filepath.Join(verifDir, "replays", id)
+	os.MkdirAll(replayDir, 0o755)
+	// clear old replays for this property
+	if ents, err := os.ReadDir(replayDir); err == nil {
+		for _, e := range ents {
+			os.Remove(filepath.Join(replayDir, e.Name()))
+		}
+	}
+	nReplays, nReproduced := 0, 0
+	knownHit := map[int]bool{}
+
+	for _, h := range hs {
+		pkg := prog.Pkgs["github.com/Vedant9500/WTF/"+h.Pkg]
+		if pkg == nil {
+			inconclusive = append(inconclusive, "package not loaded: "+h.Pkg)
+			continue
+		}
+		fn := pkg.Func(h.Fn)
+		if fn == nil {
+			inconclusive = append(inconclusive, "harness not found: "+h.Fn)
+			continue
+		}
+		cfg := sx.DefaultConfig()
+		cfg.Workers = runtime.NumCPU()
+		if cfg.Workers > 16 {
+			cfg.Workers = 16
+		}
+		if h.Workers > 0 {
+			cfg.Workers = h.Workers
+		}
+		if *workers > 0 {
+			cfg.Workers = *workers
+		}
+		if h.Solver != "" {
+			cfg.Solver = h.Solver
+		}
+		if h.MapOrder > 0 {
+			cfg.MapOrderMax = h.MapOrder
+		}
+		if h.MaxPaths > 0 {
+			cfg.MaxPaths = h.MaxPaths
+		}
+		if h.MaxSteps > 0 {
+			cfg.MaxSteps = h.MaxSteps
+		}
+		if h.MaxEnum > 0 {
+			cfg.MaxEnum = h.MaxEnum
+		}
+		if h.TimeoutMs > 0 {
+			cfg.TimeoutMs = h.TimeoutMs
+		} else if *tier == "thorough" {
+			cfg.TimeoutMs = 600000
+		}
+		if *tier == "thorough" && cfg.Solver == "z3" {
+			cfg.CrossCheck = "z3-new"
+		}
+		cfg.LogSMT = *logsmt
+		cfg.Verbose = *verbose
+		rep := prog.Explore(fn, cfg)
+		results = append(results, hres2{h, rep})
+		fmt.Printf("harness %s: paths=%d %v asserts=%d (syntactic %d, solver %d) queries=%d sat=%d unsat=%d unknown=%d solver=%.1fs wall=%.1fs exhausted=%v\n",
+			h.Fn, rep.Paths, rep.ByStatus, rep.Asserts, rep.Syntactic, rep.SolverUnsat, rep.Queries, rep.Sat, rep.Unsat, rep.Unknown,
+			rep.SolverTime.Seconds(), rep.Wall.Seconds(), rep.Exhausted)
+		for _, p := range rep.Problems {
+			inconclusive = append(inconclusive, h.Fn+": "+p)
+		}
+		for _, u := range rep.Unknowns {
+			inconclusive = append(inconclusive, h.Fn+": "+u)
+		}
+		if rep.SolverErr > 0 {
+			inconclusive = append(inconclusive, fmt.Sprintf("%s: %d solver error lines", h.Fn, rep.SolverErr))
+		}
+		if !rep.Exhausted && len(rep.Problems) == 0 {
+			inconclusive = append(inconclusive, h.Fn+": exploration not exhausted")
+		}
+		if rep.Asserts == 0 {
+			inconclusive = append(inconclusive, h.Fn+": vacuous (no assertion reached)")
+		}
+		for _, l := range h.RequireReach {
+			if rep.Reached[l] == 0 {
+				inconclusive = append(inconclusive, fmt.Sprintf("%s: vacuous (reachability witness %q not reached on any feasible path)", h.Fn, l))
+			}
+		}
+		// findings -> native replay -> classification
+		for _, f := range rep.Findings {
+			nReplays++
+			rp := filepath.Join(replayDir, fmt.Sprintf("%s_%d.json", h.Fn, nReplays))
+			rec := map[string]any{"property": id, "pkg": h.Pkg, "harness": h.Fn, "kind": f.Kind, "msg": f.Msg, "site": f.Site,
+				"vector": f.Vector, "named": f.Named, "decisions": f.Decisions, "needs_map_order": f.NeedsMapOrder}
+			jb, _ := json.MarshalIndent(rec, "", " ")
+			os.WriteFile(rp, jb, 0o644)
+			reproduced := false
+			detail := ""
+			if native != nil {
+				repeat := 1
+				if f.NeedsMapOrder {
+					repeat = 2000
+				}
+				out := native.Replay(h.Pkg, h.Fn, rp, repeat)
+				switch {
+				case out.Err != "":
+					detail = "native replay error: " + out.Err
+				case f.Kind == "assert":
+					for _, a := range out.Asserts {
+						if a == f.Msg {
+							reproduced = true
+						}
+					}
+					if !reproduced {
+						detail = fmt.Sprintf("native run did not fail %q (failed: %v panic: %q)", f.Msg, out.Asserts, out.Panic)
+					}
+				case f.Kind == "panic":
+					if out.Panic != "" {
+						reproduced = true
+					} else {
+						detail = "native run did not panic"
+					}
+				}
+			} else {
+				reproduced = true
+			}
+			if !reproduced {
+				inconclusive = append(inconclusive, fmt.Sprintf("%s: counterexample for %q did not reproduce natively (encoding or stub error): %s [%s]", h.Fn, f.Msg, detail, rp))
+				continue
+			}
+			nReproduced++
+			matched := -1
+			for k, kf := range known {
+				if kf.Property == id && kf.Status == "known" && kf.Harness == h.Fn && kf.Kind == f.Kind && kf.Msg == f.Msg &&
+					(kf.Site == "" || strings.Contains(f.Site, kf.Site)) {
+					matched = k
+					break
+				}
+			}
+			if matched >= 0 {
+				if !knownHit[matched] {
+					knownHit[matched] = true
+					outLines = append(outLines, fmt.Sprintf("KNOWN-FINDING: property=%s %s", id, known[matched].What))
+				}
+				continue
+			}
+			violations++
+			outLines = append(outLines, fmt.Sprintf("VIOLATION property=%s replay=%s", id, rp))
+			outLines = append(outLines, fmt.Sprintf("  harness=%s kind=%s msg=%q site=%s inputs=%v", h.Fn, f.Kind, f.Msg, f.Site, f.Named))
+		}
+	}
+
+	// ---- evidence ----
+	wall := time.Since(t0).Seconds()
+	ev := buildEvidence(id, *tier, seed, spec, results, inconclusive, violations, nReplays, nReproduced, wall, loadS, outLines)
+	os.MkdirAll(filepath.Join(verifDir, "evidence"), 0o755)
+	eb, _ := json.MarshalIndent(ev, "", " ")
+	if err := os.WriteFile(filepath.Join(verifDir, "evidence", id+".json"), eb, 0o644); err != nil {
+		fatal(id, err.Error())
+	}
+
+	for _, l := range outLines {
+		fmt.Println(l)
+	}
+	if violations > 0 {
+		os.Exit(1)
+	}
+	if len(inconclusive) > 0 {
+		for _, m := range inconclusive {
+			fmt.Println("INCONCLUSIVE property=" + id + " " + m)
+		}
+		os.Exit(2)
+	}
+	fmt.Printf("OK property=%s tier=%s harnesses=%d wall=%.1fs\n", id, *tier, len(results), wall)
+}
+
+type hres2 struct {
+	Spec HarnessSpec
+	Rep  *sx.HarnessReport
+}
+
+func fatal(id, msg string) {
+	fmt.Printf("INCONCLUSIVE property=%s %s\n", id, msg)
+	os.Exit(2)
+}
+
+func doReplay(repo, id, path string) int {
+	b, err := os.ReadFile(path)
 	if err != nil {
 		fmt.Println(err)
-		os.Exit(2)
+		return 2
 	}
-	var hp = p.Pkgs["github.com/Vedant9500/WTF/"+*pkg]
-	f := hp.Func(*fn)
-	if f == nil {
-		fmt.Println("no such harness", *fn)
-		os.Exit(2)
+	var rec struct {
+		Pkg, Harness, Kind, Msg string
+		NeedsMapOrder           bool `json:"needs_map_order"`
 	}
-	cfg := sx.DefaultConfig()
-	cfg.Workers = *workers
-	cfg.Solver = *solver
-	cfg.LogSMT = *logsmt
-	cfg.MapOrderMax = *maporder
-	rep := p.Explore(f, cfg)
-	fmt.Printf("harness %s: paths=%d status=%v decisions=%d asserts=%d (syntactic %d, solver-unsat %d) queries=%d sat=%d unsat=%d unknown=%d err=%d solver=%.2fs wall=%.2fs exhausted=%v\n",
-		rep.Name, rep.Paths, rep.ByStatus, rep.Decisions, rep.Asserts, rep.Syntactic, rep.SolverUnsat, rep.Queries, rep.Sat, rep.Unsat, rep.Unknown, rep.SolverErr, rep.SolverTime.Seconds(), rep.Wall.Seconds(), rep.Exhausted)
-	fmt.Println("reached:", rep.Reached)
-	for _, f := range rep.Findings {
-		fmt.Printf("FINDING %s: %s site=%s named=%v\n", f.Kind, f.Msg, f.Site, f.Named)
+	if err := json.Unmarshal(b, &rec); err != nil {
+		fmt.Println(err)
+		return 2
 	}
-	for _, u := range rep.Unknowns {
-		fmt.Println("UNKNOWN:", u)
+	native, err := sx.NewNativeRunner(repo, filepath.Join(verifDir, "harness"))
+	if err != nil {
+		fmt.Println(err)
+		return 2
 	}
-	for _, u := range rep.Problems {
-		fmt.Println("PROBLEM:", u)
+	defer native.Close()
+	repeat := 1
+	if rec.NeedsMapOrder {
+		repeat = 2000
 	}
-	for _, s := range rep.Samples {
-		fmt.Println("SAMPLE:", s)
+	abs, _ := filepath.Abs(path)
+	out := native.Replay(rec.Pkg, rec.Harness, abs, repeat)
+	fmt.Print(out.Output)
+	if out.Failed {
+		fmt.Printf("VIOLATION property=%s replay=%s\n", id, path)
+		return 1
 	}
-	fmt.Println("funcs encoded:", len(rep.Funcs))
+	return 0
+}
+
+func buildEvidence(id, tier string, seed int, spec CheckSpec, results []hres2, inconclusive []string,
+	violations, nReplays, nReproduced int, wall, loadS float64, outLines []string) map[string]any {
+	states, transitions := 0, 0
+	obligations, discharged := 0, 0
+	queries, sat, unsat, unknown := 0, 0, 0, 0
+	solverS := 0.0
+	var samples []any
+	var harnessEv []any
+	funcs := map[string]int{}
+	exhaustive := true
+	for _, r := range results {
+		rep := r.Rep
+		states += rep.Paths
+		transitions += rep.Decisions
+		obligations += rep.Asserts
+		discharged += rep.Syntactic + rep.SolverUnsat
+		queries += rep.Queries
+		sat += rep.Sat
+		unsat += rep.Unsat
+		unknown += rep.Unknown
+		solverS += rep.SolverTime.Seconds()
+		if !rep.Exhausted {
+			exhaustive = false
+		}
+		for f, n := range rep.Funcs {
+			funcs[f] = n
+		}
+		for _, s := range rep.Samples {
+			samples = append(samples, map[string]any{"harness": rep.Name, "path": s})
+		}
+		var fnd []any
+		for _, f := range rep.Findings {
+			fnd = append(fnd, map[string]any{"kind": f.Kind, "msg": f.Msg, "site": f.Site, "inputs": f.Named})
+		}
+		harnessEv = append(harnessEv, map[string]any{
+			"harness": rep.Name, "package": r.Spec.Pkg, "what": r.Spec.What, "bounds": r.Spec.Bounds, "solver": orDefault(r.Spec.Solver, "z3"),
+			"paths": rep.Paths, "paths_by_status": rep.ByStatus, "branch_decisions": rep.Decisions,
+			"assertions_posed": rep.Asserts, "decided_by_constant_folding": rep.Syntactic, "decided_unsat_by_solver": rep.SolverUnsat,
+			"solver_queries": rep.Queries, "sat": rep.Sat, "unsat": rep.Unsat, "unknown": rep.Unknown, "solver_error_lines": rep.SolverErr,
+			"solver_seconds": round2(rep.SolverTime.Seconds()), "wall_seconds": round2(rep.Wall.Seconds()),
+			"ssa_instructions_executed": rep.Steps, "exhausted": rep.Exhausted, "reach_witnesses": rep.Reached,
+			"map_ranges_forked_over_all_orders": rep.MapRangesForked, "map_ranges_in_insertion_order": rep.MapRangesFixed,
+			"non_ascii_decode_events": rep.NonASCII, "findings": fnd,
+		})
+	}
+	type fc struct {
+		name string
+		n    int
+	}
+	var fl []fc
+	for f, n := range funcs {
+		fl = append(fl, fc{f, n})
+	}
+	sort.Slice(fl, func(a, b int) bool { return fl[a].name < fl[b].name })
+	var encoded []string
+	for _, f := range fl {
+		encoded = append(encoded, fmt.Sprintf("%s (%d instr)", f.name, f.n))
+	}
+	if len(samples) == 0 {
+		samples = append(samples, "no path completed")
+	}
+	cov := map[string]any{
+		"states":                        max1(states),
+		"transitions":                   max1(transitions),
+		"traces_validated_against_impl": nReproduced,
+		"samples":                       samples,
+		"obligations":                   obligations,
+		"discharged":                    discharged,
+		"explanation": spec.Explanation + " | states = symbolic paths explored (each a set of concrete executions described by its path condition); transitions = symbolic branch decisions taken; traces_validated_against_impl = solver counterexamples replayed natively against the real build with go test -overlay.",
+		"exhaustive":                    exhaustive && len(inconclusive) == 0,
+		"harnesses":                     harnessEv,
+		"functions_encoded":             encoded,
+		"functions_encoded_count":       len(encoded),
+		"solver_queries":                map[string]any{"total": queries, "sat": sat, "unsat": unsat, "unknown": unknown, "solver_seconds": round2(solverS)},
+		"native_replays":                map[string]any{"attempted": nReplays, "reproduced": nReproduced},
+		"stubs":                         spec.Stubs,
+		"outside_the_claim":             spec.Outside,
+		"trusted_base":                  spec.Trusted,
+		"inconclusive":                  inconclusive,
+		"verdict_lines":                 outLines,
+		"ssa_load_seconds":              round2(loadS),
+		"engine":                        "gosym: path-replay symbolic executor over go/ssa (x/tools v0.50.0), regenerated from /repo working tree",
+	}
+	level := spec.Level
+	if level == "" {
+		level = "model_checking"
+	}
+	return map[string]any{
+		"property_id": id, "tier": tier, "seed": seed, "level": level, "coverage": cov,
+		"assumptions": spec.Assumptions, "wall_s": round2(wall), "violations": violations,
+	}
+}
+
+func orDefault(s, d string) string {
+	if s == "" {
+		return d
+	}
+	return s
+}
+
+func round2(f float64) float64 { return float64(int(f*100)) / 100 }
+
+func max1(n int) int {
+	if n < 1 {
+		return 1
+	}
+	return n
 }
